@@ -255,6 +255,16 @@ func (_this *Encoder) OnBigDecimalFloat(value *apd.Decimal) {
 		return
 	}
 
+	if value.IsZero() {
+		// Use the same (shortest) zero encoding as every other zero value
+		if value.Negative {
+			_this.writer.WriteZero(-1)
+		} else {
+			_this.writer.WriteZero(1)
+		}
+		return
+	}
+
 	_this.writer.WriteBigDecimalFloat(value)
 }
 
